@@ -700,6 +700,36 @@ namespace
         static void           eval(Scalar<"id", Int> id, In<"d", DInt> d, NodeView self, DateTime now) { log_dict("drec", id.value(), self, now, d); }
     };
 
+    // ---------- a dynamic (unsized) list source: script=<t>:<i>=<v>,<i>=<v>;... sets element i to v at time t ----------
+    using DynL = TSL<TS<Int>>;
+    struct VDynLSrc
+    {
+        static constexpr auto name = "v_dynlsrc";
+        static void           start(Scalar<"id", Int> id, NodeScheduler sched, NodeView self, DateTime now)
+        {
+            auto ops  = parse_dscript(spec_of(id.value()).line.gets("script", ""));
+            long last = -1;
+            for (auto &o : ops)
+            {
+                if (o.t != last && to_dt(o.t) >= now)
+                {
+                    sched.schedule(to_dt(o.t));
+                    log_req(id.value(), self, now, to_dt(o.t));
+                }
+                last = o.t;
+            }
+        }
+        static void eval(Scalar<"id", Int> id, NodeView self, DateTime now, Out<DynL> out)
+        {
+            auto       ops = parse_dscript(spec_of(id.value()).line.gets("script", ""));
+            const long k   = to_k(now);
+            for (auto &o : ops)
+            {
+                if (o.t == k && !o.remove) { out[static_cast<std::size_t>(o.k)].set(Int{o.v}); }
+            }
+        }
+    };
+
     // ---------- set-shaped payloads: the key set of a dictionary as a TSS, recorded in the dictionary format (value 1) ----------
     using SInt = TSS<Int>;
     struct VSKeys
@@ -988,6 +1018,7 @@ namespace
         std::map<long, Port<DInt>>               dports;    // node id -> dictionary output port
         std::map<long, Port<L2>>                 lports;    // node id -> two-element list output port
         std::map<long, Port<TSS<Int>>>           sports;    // node id -> set output port
+        std::map<long, Port<TSL<TS<Int>>>>       dlports;   // node id -> dynamic list output port
         std::map<long, Port<TSL<TS<Int>, std::size_t{3}>>> l3ports;   // node id -> three-element list output port
         std::optional<P>                         key;       // the `key` port of a mapped child graph
         std::map<long, std::shared_ptr<void>>    feedbacks; // node id -> feedback handle
@@ -1090,6 +1121,18 @@ namespace
         {
             Env env{w, {a0, a1}};
             return interpret3(env, g_scn->graphs.at("g" + std::to_string(K)));
+        }
+    };
+
+    // a sub-graph without a result (a sink body): what it computes is recorded inside
+    template <int K>
+    struct SubG1V
+    {
+        static constexpr auto name = "hgv_sub1v";
+        static void           compose(Wiring &w, P a0)
+        {
+            Env env{w, {a0}};
+            static_cast<void>(interpret(env, g_scn->graphs.at("g" + std::to_string(K))));
         }
     };
 
@@ -1221,7 +1264,7 @@ namespace
             const std::string kind = l.pos.at(2);
             NodeSpec         &sp   = spec_of(id);
             std::vector<P>    in;
-            if (kind != "drec" && kind != "lsuml" && kind != "elem3" && kind != "skeys" && kind != "srec" && kind != "map" && kind != "reduce" && kind != "rrec" && kind != "mesh" && kind != "elem" && kind != "dite")
+            if (kind != "drec" && kind != "tmap" && kind != "lsuml" && kind != "elem3" && kind != "skeys" && kind != "srec" && kind != "map" && kind != "reduce" && kind != "rrec" && kind != "mesh" && kind != "elem" && kind != "dite")
             {
                 for (auto &r : sp.ins) { in.push_back(resolve(env, r)); }
             }
@@ -1397,6 +1440,14 @@ namespace
                 auto      dl = env.dports.at(std::stol(sp.ins.at(1)));
                 auto      m  = dispatch_slot<SubG2>(k, [&]<typename G>() { return Port<void>{wire<stdlib::mesh_>(w, fn<G>(), dv, dl)}; });
                 env.dports.emplace(id, m.as<DInt>());
+            }
+            else if (kind == "dynlsrc") { env.dlports.emplace(id, wire<VDynLSrc>(w, sid)); }
+            else if (kind == "tmap")
+            {
+                // map_sink_ over a dynamic list: one child graph per index (g=<slot>, one input, its result is recorded inside)
+                const int k = static_cast<int>(l.geti("g", 0));
+                auto      d = env.dlports.at(std::stol(sp.ins.at(0)));
+                dispatch_slot<SubG1V>(k, [&]<typename G>() { wire<stdlib::map_sink_>(w, fn<G>(), d); return 0; });
             }
             else if (kind == "skeys") { env.sports.emplace(id, wire<VSKeys>(w, env.dports.at(std::stol(sp.ins.at(0))))); }
             else if (kind == "srec") { wire<VSRec>(w, sid, env.sports.at(std::stol(sp.ins.at(0)))); }
